@@ -83,6 +83,22 @@ Theorem C17_ungated_always_available : forall st im c sel, 0 <= sel < two32 ->
   guard_of c sel = Ungated -> get_embedded_method st im true c sel = Found.
 Proof. exact ungated_always_available. Qed.
 
+(* the property for the named features of the binary (selectors and tables dumped from the running code): with
+   the sporks enforced in nesting order each spork-gated method is available exactly at the stores where its own
+   spork is enforced - unavailable below the enforcement height, available from it on - and the original methods
+   are always available *)
+Theorem C17_features_switch_on_at_enforcement : forall st im, nesting_order st im ->
+  (available_enc st im FeatureAcceleratorCreateProject = true <-> is_active st (id_accelerator im) = true) /\
+  (available_enc st im FeatureLiquidityFund = true <-> is_active st (id_accelerator im) = true) /\
+  (available_enc st im FeatureBridgeWrapToken = true <-> is_active st (id_bridge im) = true) /\
+  (available_enc st im FeatureBridgeRedeem = true <-> is_active st (id_bridge im) = true) /\
+  (available_enc st im FeatureLiquidityStake = true <-> is_active st (id_bridge im) = true) /\
+  (available_enc st im FeatureHtlcCreate = true <-> is_active st (id_htlc im) = true) /\
+  (available_enc st im FeatureHtlcUnlock = true <-> is_active st (id_htlc im) = true) /\
+  available_enc st im FeaturePlasmaFuse = true /\ available_enc st im FeatureSporkActivate = true /\
+  available_enc st im FeaturePillarCollectReward = true.
+Proof. exact features_switch_on_at_enforcement. Qed.
+
 (* FINDING (known_findings.d/C17.json, key method-available-without-its-own-spork; DESIGN section 6, F12):
    "available only if its own spork is enforced" does NOT hold: the tables are built on each other
    (htlc on bridge-and-liquidity on accelerator), so with only the HTLC spork enforced every method that the
